@@ -104,6 +104,9 @@ type vf10HandshakeInput struct {
 	Chunks       []int
 	End          string
 	Desc         string
+	// Undecided: the bytes are a proper prefix of something that may still become a valid handshake (short
+	// random input, truncated valid handshake): whatever has arrived, the endpoint is still handshaking
+	Undecided bool
 }
 
 // vf10RunHandshake feeds in.Data to a real endpoint that is handshaking.
@@ -129,6 +132,18 @@ func vf10RunHandshake(br vfBridge, in vf10HandshakeInput) (msg string, reachedPa
 	if err := n.WaitQuiescent(real); err != nil {
 		return "VIOL[c10-obfs4-wedge]: " + err.Error(), false
 	}
+	// "armed when they start": the deadline the handshake started under bounds the whole handshake; bytes
+	// that trickle in do not push it back (a peer that sends a byte now and then would never be dropped)
+	first := n.ReadDeadline(real)
+	slides := func(after string) string {
+		if !in.Undecided || first.IsZero() || ep.SetupDone() || n.Closed(real) {
+			return ""
+		}
+		if d := n.ReadDeadline(real); d.After(first.Add(2 * time.Millisecond)) {
+			return fmt.Sprintf("VIOL[c10-obfs4-deadline-slides]: the handshake started under the read deadline %s; after %s (still handshaking: %s) the read deadline is %s, %v later: every piece of input pushes the timeout back", first.Format("15:04:05.000000"), after, in.Desc, d.Format("15:04:05.000000"), d.Sub(first))
+		}
+		return ""
+	}
 	n.Inject(real.Peer(), in.Data)
 	for _, c := range in.Chunks {
 		if n.Pending(real.Peer()) == 0 || n.Closed(real) {
@@ -138,11 +153,20 @@ func vf10RunHandshake(br vfBridge, in vf10HandshakeInput) (msg string, reachedPa
 		if err := n.WaitQuiescent(real); err != nil {
 			return "VIOL[c10-obfs4-wedge]: " + err.Error(), false
 		}
+		if m := slides(fmt.Sprintf("a segment of %d bytes", c)); m != "" {
+			return m, false
+		}
 	}
 	if !n.Closed(real) {
+		if in.Undecided && n.Pending(real.Peer()) > 0 {
+			time.Sleep(5 * time.Millisecond)
+		}
 		n.ReleaseAll(real.Peer())
 		if err := n.WaitQuiescent(real); err != nil {
 			return "VIOL[c10-obfs4-wedge]: " + err.Error(), false
+		}
+		if m := slides("the rest of the input, sent 5 ms later"); m != "" {
+			return m, false
 		}
 	}
 	if pv, st := ep.Panic(); pv != nil {
@@ -259,6 +283,7 @@ func vf10GenHandshakeInput(rt *rapid.T, br vfBridge, ent func(int) []byte) vf10H
 		}
 	}
 	in.Desc = fmt.Sprintf("%s(%d bytes)", kind, len(in.Data))
+	in.Undecided = kind == "random" || kind == "valid-prefix"
 	for i, k := 0, rapid.IntRange(0, 5).Draw(rt, "chunks"); i < k; i++ {
 		in.Chunks = append(in.Chunks, rapid.SampledFrom([]int{1, 31, 32, 63, 64, 65, 96, 141, 1000, 8191, 8192, 8193}).Draw(rt, "chunk"))
 	}
@@ -268,7 +293,7 @@ func vf10GenHandshakeInput(rt *rapid.T, br vfBridge, ent func(int) []byte) vf10H
 func TestVerifC10Obfs4Handshake(t *testing.T) {
 	vfSetup(t)
 	c := ev.For("C10")
-	c.Rule("obfs4-handshake: a real client (Dial) or server (WrapConn) is fed generated bytes in place of the peer's handshake (random, 8 KiB boundary lengths, up to 1 MiB, correct mark with wrong MAC, truncated valid handshake, valid-looking handshake plus garbage) in generated segments, ended by EOF, an injected read error or the fired deadline; oracle: no panic, released bytes are consumed, the handshake call returns an error once the input has ended, a deadline was armed before the first read (and is cleared after a success), no data surfaces; non-trivial = input of at least 64 bytes (gets past the minimum-length test of the parser); fingerprint = role, input kind, length, plan, ending; plus handshakes that are valid in everything public knowledge allows (length, mark, MAC with the current hour) but whose key representative maps to a low-order point")
+	c.Rule("obfs4-handshake: a real client (Dial) or server (WrapConn) is fed generated bytes in place of the peer's handshake (random, 8 KiB boundary lengths, up to 1 MiB, correct mark with wrong MAC, truncated valid handshake, valid-looking handshake plus garbage) in generated segments, ended by EOF, an injected read error or the fired deadline; oracle: no panic, released bytes are consumed, the handshake call returns an error once the input has ended, a deadline was armed before the first read (and is cleared after a success), while the input is still undecided (short random input, truncated valid handshake) the read deadline in force never moves later than the one the handshake started under (one piece of the input is sent 5 ms after the others), no data surfaces; non-trivial = input of at least 64 bytes (gets past the minimum-length test of the parser); fingerprint = role, input kind, length, plan, ending; plus handshakes that are valid in everything public knowledge allows (length, mark, MAC with the current hour) but whose key representative maps to a low-order point")
 	rapid.Check(t, func(rt *rapid.T) {
 		rk := rapid.Uint64().Draw(rt, "randKey")
 		defer vfRandSeedKey(rk)()
